@@ -8,6 +8,7 @@ def jobs(prop, tier):
                ["api.sorted_partitioned_columns (filters)"]),
             ch(prop, "vf/pyshim/h_c04b.py", "h_stats_selection", t, ["writer.make_row_group (statistics selection)"]),
             ch(prop, "vf/pyshim/h_c04c.py", "h_statistics_chunk", t, ["api.statistics (ColumnChunk)"]),
+            ch(prop, "vf/pyshim/h_c06.py", "h_slice_state", t, ["api.ParquetFile.__getitem__", "api.ParquetFile.statistics"]),
             ch(prop, "vf/pyshim/h_c04c.py", "h_statistics_file", t, ["api.statistics (RowGroup, ParquetFile)"]),
             ch(prop, "vf/pyshim/h_wc.py", "h_bool_stats", t, ["writer.write_column (statistics of BOOLEAN columns)"],
                env=dict(VERIF_CATS=0)),
